@@ -173,7 +173,11 @@ func checkLineDiscipline(s *gen.MsgSpec, out []byte, viol func(key, what string,
 					// "Name: token": the blank after the colon does not make the line foldable content
 					rest = strings.TrimLeft(l[len(f.Name)+1:], " \t")
 				}
-				if strings.ContainsAny(rest, " \t") {
+				if q := strings.TrimPrefix(rest, "boundary=\""); q != rest && strings.HasSuffix(q, "\"") && !strings.Contains(q[:len(q)-1], "\"") && strings.Contains(q, " ") {
+					// the whole line is one quoted boundary parameter that holds a blank (a caller-defined boundary of
+					// almost the maximum length): not a single token, so the statement counts it - under a key of its own
+					viol("header-line-too-long:quoted-boundary-with-blank", fmt.Sprintf("header line of %d characters: a quoted boundary parameter that contains a blank: %q", len(l), ev.Trunc(l, 200)), nil)
+				} else if strings.ContainsAny(rest, " \t") {
 					viol("header-line-too-long:"+lineKey(e.Depth, e, f.Name), fmt.Sprintf("header line of %d characters that contains blanks (could have been folded): %q", len(l), ev.Trunc(l, 200)), nil)
 				} else {
 					count("long_single_token_lines", 1)
